@@ -61,7 +61,7 @@ def setup(ns, ctx, cfg):
         else:
             labs = list(labels)
         c, info = common.build_continuum(ns, ctx, sizes, coords=cfg.get("coords", "sym"), labels=labs,
-                                         min_dur=cfg.get("min_dur"))
+                                         min_dur=cfg.get("min_dur"), ordered=("weak" if cfg.get("ties") else True))
         for v in info.values():
             for k in ("start", "end"):
                 if isinstance(v[k], SymNum) and not z3.is_rational_value(v[k].e):
